@@ -4,7 +4,7 @@ TRUSTED = [
     "sync.Once, sync/atomic, channels (close / receive), context cancellation, fun.WaitGroup and the erc.Collector mutex are model primitives (one atomic step each); goroutine scheduling fairness and goroutine exit are trusted",
     "errors.Is on the aggregate is modelled as membership in a token set (one token per phase error / panic value, plus ErrRecoveredPanic)",
     "yield hooks srv/verif_on.go (build tag verif; points Start.checked, Start.launched, main.finished; VerifWaitGoroutines) and the call-log recorder of harness/cmd/c10",
-    "the acceptance search (Model/ServiceAccept.v: memoised depth-first search over hidden steps, node budget 40000, measured maximum 1129 on 22k recorded logs); a log it cannot place within the budget is reported as a mismatch, never accepted",
+    "the acceptance search (Model/ServiceAccept.v: memoised depth-first search over hidden steps, node budget 20000, measured maximum 1129 on 22k recorded logs); a log it cannot place within the budget is reported as a mismatch, never accepted",
 ]
 ASSUMPTIONS = [
     "the ErrorHandler is set before Start and not changed afterwards; Run/Shutdown/Cleanup/ErrorHandler do not call back into the Service",
